@@ -47,6 +47,7 @@ func TestCheck(t *testing.T) {
 		"independent verifiers: ref/sig BIP-340 (from the BIP text), generic Schnorr and ECDSA over ref/curve (math/big), crypto/ecdsa for P-256, BLS by definition sigma == [sk]*H(m) with sk reconstructed by ref/linalg from ALL dealt shares",
 		"Mina: the Poseidon challenge e is taken from the library (Variant.ComputeChallenge); the reference checks the group equation on R = lift_even_y(R.x) as a Mina verifier would",
 		"BLS: the hash-to-curve point H(m) is taken from the library (HashWithDst, C19's subject); domain separation tags are typed in from the IETF draft",
+		"hierarchical policies whose identifier assignment violates the library's documented precondition (hierarchical.CheckConstraints: Tassa's field-size condition) and CNF policies with a party in every maximal unqualified set (no MSP row, no key share: C02/C03's finding cnf/dummy-party) are not signing configurations",
 		"session contexts come from the documented constructor session.NewContext with deterministic seeds; quorums of one party are outside the domain (session.NewContext refuses them)",
 		"one PRNG seed per run (engine.Seed), deterministic per-party streams; the library's internal errgroup fork-joins run sequentially (build overlay) so that runs are reproducible",
 		"runner API: default schedule and FIFO delivery (other schedules are C11's subject)",
@@ -100,10 +101,12 @@ func TestCheck(t *testing.T) {
 		leaves := blsLeaves(cheapCatalogue(false), func(f, mode string, s *structure, a catalog.IDAssignment, kg proto.C01Keygen) []int {
 			if engine.Thorough() {
 				switch {
-				case kg == proto.C01Dealer && (mode == "basic" || a.Name == "ord"):
+				case kg == proto.C01Dealer && mode == "basic":
 					return []int{0, 1, 2, 3, 4}
+				case kg == proto.C01Dealer && a.Name == "ord":
+					return []int{1, 4}
 				case kg == proto.C01Dealer:
-					return []int{1}
+					return []int{2}
 				case a.Name == "ord" && s.e.P.N <= 3:
 					return []int{3}
 				}
